@@ -396,6 +396,11 @@ func workerMain(t *testing.T, def *PropDef, out string) {
 	}
 	flush()
 	_ = os.Remove(curFile)
+	if os.Getenv("DSIM_FDCOUNT") != "" {
+		if ents, err := os.ReadDir("/proc/self/fd"); err == nil {
+			fmt.Fprintf(os.Stderr, "FDCOUNT runs=%d open=%d\n", res.Runs, len(ents))
+		}
+	}
 }
 
 func opsStrings(ops []Op) []string {
